@@ -221,6 +221,7 @@ def menu_cases(tier, rng):
     MK = [b"\t", b"\t", b"\x1b[Z", b"\x1b[A", b"\x1b[B", b"\x1b[C", b"\x1b[D", b"\x0e", b"\x10", b"\x1b[1;5A", b"\x1b[1;5B", b"\x00", b"\x06"]
     TXT = [b"a", b"p", b"z", b"h", b"o", b"f", b"1", b"d", b"-", b"c0", b"zz"]
     END = [b"\r", b"\x07", b"\x03", b"\x1b", b" ", b"x", b"\x7f"]
+    PAT = [b"ap", b"ha", b"av", b"ham", b"foo", b"pa", b"fop", b"--a", b"-", b"zed", b"c1", b"c39", b"d2", b"on", b"qq", b"e"]
     out = []
     for i in range(60 if tier == "quick" else 900):
         mode = "emacs" if i % 3 else "vi"
@@ -231,9 +232,15 @@ def menu_cases(tier, rng):
             b = rng.choice(["", "", "a", "f", "fo", "x h", "-"])
             c["setups"].append(setup(b, len(b), "emacs" if mode == "emacs" else "vi-insert"))
             ks = [b"\t"] if rng.random() < 0.8 else [rng.choice([b"\x1b?", b"\x1b=", b"\x1b*"])]
-            for _ in range(rng.randint(1, 7)):
-                r = rng.random()
-                ks.append(rng.choice(MK) if r < 0.6 else rng.choice(TXT) if r < 0.85 else rng.choice([b"\x7f", b"\x06"]))
+            if rng.random() < 0.5:
+                # the menu's search with a text that keeps only part of the candidates (often a whole group goes), then cycling
+                ks += [b"\x06", rng.choice(PAT)] + [rng.choice(MK[:11]) for _ in range(rng.randint(1, 4))]
+                if rng.random() < 0.3:
+                    ks += [b"\x7f", rng.choice(MK[:11])]
+            else:
+                for _ in range(rng.randint(1, 7)):
+                    r = rng.random()
+                    ks.append(rng.choice(MK) if r < 0.6 else rng.choice(TXT) if r < 0.85 else rng.choice([b"\x7f", b"\x06"]))
             ks.append(rng.choice(END))
             c["sessions"].append([SETUP_KEY] + [keys(k) for k in ks])
         out.append(c)
